@@ -220,7 +220,12 @@ class Check:
             self.coverage.update(obligations=max(1, len(theorem_names(LEAN / 'Pybes3Verif' / 'Props' / f'{self.prop}.lean'))), discharged=0)
             return False
         a = audit(self.prop, extra_allowed)
-        axs = sorted({ax for v in a["theorems"].values() for ax in v})
+        axs_all = sorted({ax for v in a["theorems"].values() for ax in v})
+        native = [x for x in axs_all if "._native." in x]
+        axs = [x for x in axs_all if "._native." not in x]
+        if native:
+            axs.append(f"{len(native)} per-theorem bv_decide certificate axioms (<theorem>._native.bv_decide.ax_*)")
+            self.coverage["native_axioms"] = native
         self.coverage["obligations"] = len(a["names"])
         self.coverage["discharged"] = len([n for n in a["names"] if n in a["theorems"]]) if a["ok"] else 0
         self.coverage["theorems"] = a["names"]
